@@ -18,7 +18,7 @@ CLAIMS = {
     "C05": ("Coq theorems C05_*: source pattern table = ISO 15417 width table (all 107, distinct, 11/13 modules); for EVERY byte string the Code 128 model never panics, accepts exactly 1..80 runes over ASCII ∪ FNC1-4, and the ISO reference decoder applied to the model's modules returns exactly the rune sequence (induction over the rune list generalised over the current code set), check character = mod-103 value = CheckSum(). Tied to the code by generated tables (gotab), differential run incl. the internal index list (exhaustive short strings over a class alphabet, Markov random), and the extracted reference decoder run on the implementation's pixels.", "DESIGN.md §5 C05"),
 }
 
-CLAIMS["C17"] = ("Coq theorems C17_*: the run-time tables of all 7 fields the library constructs (dumped from /repo by gotab) equal the model of NewGaloisField at the ISO primitive polynomials and pass the computable check gf_ok, from which the field laws are proved GENERICALLY for all operands (closure, commutativity, associativity, unit, distributivity over xor via linearity of the doubling map, inverse, division defined for every non-zero divisor and undoing multiplication, explicit panic on zero divisor, no zero divisors); table product = textbook shift-and-add product for all pairs of the fields up to 256 elements; polynomial division terminates without panic with deg r < deg g and dividend = q*g + r at every field point (coefficient-level equality not proved: partial); Reed-Solomon: for every data vector, every k with base+k <= size and EVERY history of earlier requests the encoder returns k field symbols, equal to a fresh encoder's, making data++ecc vanish at alpha^base..alpha^(base+k-1) (uniqueness of the check symbols not proved: partial). Tied to the code by the table dump, exhaustive differential rows of Multiply/Divide/Invers for every field (all rows in thorough), random polynomial ops, RS request histories incl. the package-level qr/datamatrix encoders, with textbook-multiplication / division-identity / zero-syndrome oracles on the implementation's outputs.", "DESIGN.md §5 C17")
+CLAIMS["C17"] = ("Coq theorems C17_*: the run-time tables of all 7 fields the library constructs (dumped from /repo by gotab) equal the model of NewGaloisField at the ISO primitive polynomials and pass the computable check gf_ok, from which the field laws are proved GENERICALLY for all operands (closure, commutativity, associativity, unit, distributivity over xor via linearity of the doubling map, inverse, division defined for every non-zero divisor and undoing multiplication, explicit panic on zero divisor, no zero divisors); table product = textbook shift-and-add product for all pairs of the fields up to 256 elements; polynomial division terminates without panic with deg r < deg g and AddOrSubstract(Multiply(q,g),r) = dividend as coefficient lists; Reed-Solomon: for every data vector, every k with base+k <= size and EVERY history of earlier requests the encoder returns k field symbols, equal to a fresh encoder's, making data++ecc vanish at alpha^base..alpha^(base+k-1), and these are the unique such symbols when the k roots are distinct (a polynomial of degree < k with k distinct roots is zero). Tied to the code by the table dump, exhaustive differential rows of Multiply/Divide/Invers for every field (all rows in thorough), random polynomial ops, RS request histories incl. the package-level qr/datamatrix encoders, with textbook-multiplication / division-identity / zero-syndrome oracles on the implementation's outputs.", "DESIGN.md §5 C17")
 
 CLAIMS["C09"] = ("Coq theorems C09_* (pure integer arithmetic, all sources, all widths/heights): Scale fails exactly when the request is smaller than the symbol in a scaled dimension, otherwise bounds are (0,0)-(width,height), the factor is the largest fitting integer, margins differ by at most one, every pixel is classified (module block or fill), accessors (Content, Metadata, CheckSum, ColorModel) pass through, a scaled barcode exposes no colour scheme; by induction over arbitrary CHAINS of scalings each stage meets the spec and the final image is one integer enlargement of the original modules. The source barcode is abstract (pixel function, optional scheme/checksum). Tied to the code by a differential run over 12 encoder families x 4 colour schemes and hand-made sources: full (width,height) windows, boundaries k*w-1/k*w/k*w+1 up to 2^31-1 with sampled At(), chains, explicit/default fill; extracted validator as oracle on the implementation's pixels; kernel vm_compute sample.", "DESIGN.md §5 C09")
 CLAIMS["C16"] = ("Coq theorems C16_*: (i) an interleaving semantics of N goroutines calling getPolynomial on one shared encoder whose thread program is built from structural facts extracted from /repo's current source by the gosync translator (Lock first, deferred Unlock, cache field private, no package-level variable assigned outside init, only the two RS encoders shared, four goroutines each closing its unbuffered channel last): for ANY number of goroutines, degrees, reachable initial cache and EVERY schedule: cache holds only generators, mutual exclusion, no two goroutines about to access the cache together, every returned call got gen(degree), no deadlock, every step decreases a measure (termination); (ii) unbuffered-channel protocol: a range consumer always drains the producer, a counting consumer leaves the producer running iff it receives fewer values than are sent, and encodeAlphaNumeric receives at least as many values as stringToAlphaIdx sends for every content incl. early returns. PARTIAL: the Go memory model/scheduler are not modelled; absence of data races in the compiled program is supported by race-detector runs (G in 2..64, GOMAXPROCS 1..16, cold start in fresh processes, results compared with the same calls alone, goroutine count before/after), not proved.", "DESIGN.md §5 C16")
